@@ -9,6 +9,9 @@ Input kinds
   raw    : plan_autopack_combinations(packs, dist) with an arbitrary distribution list (tie only)
   auto   : the real _do_autopack run on a collection object whose packs are fakes (get_revision_count,
            ordering) and whose _execute_pack_operations records the plan
+  seq    : several direct (or auto) steps on ONE collection object (a real repository's
+           RepositoryPackCollection for direct steps) with no pack added/removed in between --
+           the answers must not depend on earlier calls; biased to repeat the same total
   repo   : a real 2a repository on a memory transport receiving batches of revisions (fetch = one
            new pack per batch, autopack runs inside commit_write_group); after every batch the pack
            revision counts and key_count() are compared with the model's simulation
@@ -93,6 +96,22 @@ def _random_counts(rng, maxn):
     return [rng.randint(1, hi) for _ in range(n)]
 
 
+def _resplit(counts, rng):
+    """Another multiset of positive counts with the same sum."""
+    out = list(counts)
+    for _ in range(rng.randint(1, 4)):
+        if len(out) >= 2 and rng.random() < 0.5:
+            a = out.pop(rng.randrange(len(out)))
+            out[rng.randrange(len(out))] += a
+        else:
+            j = rng.randrange(len(out))
+            if out[j] >= 2 and len(out) < 30:
+                a = rng.randint(1, out[j] - 1)
+                out[j] -= a
+                out.append(a)
+    return out
+
+
 def corpus():
     out = [
         {"kind": "direct", "total": 1, "packs": [[1, 0], [1, 1]]},            # F-C07 witness: IndexError
@@ -107,6 +126,17 @@ def corpus():
         {"kind": "auto", "total": None, "packs": [[0, 0], [0, 1], [0, 2], [1, 3]]},
         {"kind": "auto", "total": None, "packs": [[1, i] for i in range(10)]},
         {"kind": "auto", "total": None, "packs": [[1, i] for i in range(9)]},
+        # the same total asked twice on one collection object (plan consumes its distribution list in place)
+        {"kind": "seq", "mode": "direct", "steps": [
+            {"total": 20, "packs": [[10, 0]] + [[1, i] for i in range(1, 11)]},
+            {"total": 20, "packs": [[10, 0]] + [[1, i] for i in range(1, 11)]}]},
+        {"kind": "seq", "mode": "direct", "steps": [
+            {"total": 12, "packs": [[3, 0], [3, 1], [3, 2], [3, 3]]},
+            {"total": 12, "packs": [[10, 0], [1, 1], [1, 2]]},
+            {"total": 12, "packs": [[6, 0], [2, 1], [2, 2], [1, 3], [1, 4]]}]},
+        {"kind": "seq", "mode": "auto", "steps": [
+            {"total": None, "packs": [[1, i] for i in range(10)]},
+            {"total": None, "packs": [[1, i] for i in range(10)]}]},
     ]
     return out
 
@@ -152,7 +182,22 @@ def cases(rng, tier):
         if rng.random() < 0.15:
             total = sum(counts) + rng.choice([1, 5, 10, 1000])
         yield {"kind": "auto", "total": total, "packs": _with_ids(counts, rng)}
-    # 6. real repositories
+    # 6. sequences of calls on one collection object; mostly the same total again (same or another multiset)
+    for k in range(220 if quick else 2500):
+        mode = "auto" if k % 4 == 3 else "direct"
+        steps = []
+        counts = _random_counts(rng, 14) if rng.random() < 0.5 else rng.choice(list(_partitions(rng.randint(3, 16))))
+        for _ in range(rng.randint(2, 4)):
+            r = rng.random()
+            if r < 0.45 or not steps:
+                pass                                     # the same multiset again
+            elif r < 0.8:                                # another multiset with the same total
+                counts = _resplit(counts, rng)
+            else:
+                counts = _random_counts(rng, 14)         # a different total
+            steps.append({"total": sum(counts) if mode == "direct" else None, "packs": _with_ids(list(counts), rng)})
+        yield {"kind": "seq", "mode": mode, "steps": steps}
+    # 7. real repositories
     yield {"kind": "repo", "batches": [1] * (32 if quick else 112)}
     for _ in range(3 if quick else 12):
         k = rng.randint(8, 20 if quick else 40)
@@ -188,6 +233,11 @@ def _classes():
 
     class Recording(RepositoryPackCollection):
         def __init__(self, packs, total):
+            self.normal_packer_class = None
+            self.recorded = None
+            self.set_state(packs, total)
+
+        def set_state(self, packs, total):
             self._fake = [FakePack(c, i) for c, i in packs]
             self._names = {p.name: None for p in self._fake}
             self.revision_index = types.SimpleNamespace(
@@ -254,8 +304,64 @@ def _impl_repo(batches):
         srv.stop_server()
 
 
+def _real_collection():
+    """The RepositoryPackCollection of a fresh, empty, real 2a repository."""
+    import breezy.transport
+    from breezy import controldir
+    from dromedary.memory import MemoryServer
+    srv = MemoryServer()
+    srv.start_server()
+    try:
+        fmt = controldir.format_registry.make_controldir("2a")
+        repo = fmt.initialize_on_transport(breezy.transport.get_transport(srv.get_url())).create_repository()
+        return repo._pack_collection
+    finally:
+        srv.stop_server()
+
+
+def _direct_on(c, total, packs):
+    mpc = c._max_pack_count(total)
+    dist = c.pack_distribution(total)
+    d0 = list(dist)
+    res = _guard(lambda: [[n, list(l)] for n, l in c.plan_autopack_combinations(list(packs), dist)])
+    return [mpc, d0, res, list(dist)]
+
+
+def _auto_on(rec):
+    def run():
+        rec.recorded = None
+        r = rec._do_autopack()
+        if rec.recorded is None:
+            if r is not None:
+                raise RuntimeError("returned %r without executing" % (r,))
+            return Tag("noop")
+        return rec.recorded
+    return _guard(run)
+
+
+def _impl_seq(inp, k):
+    out = []
+    if inp["mode"] == "direct":
+        c = _real_collection()
+        for st in inp["steps"]:
+            out.append(_direct_on(c, st["total"], [(int(a), int(b)) for a, b in st["packs"]]))
+        return out
+    rec = None
+    for st in inp["steps"]:
+        packs = [(int(a), int(b)) for a, b in st["packs"]]
+        total = sum(a for a, _ in packs)
+        if rec is None:
+            rec = k["rec"](packs, total)
+        else:                       # the same object sees another state; nothing is added to / removed from memory
+            rec.set_state(packs, total)
+        out.append(_auto_on(rec))
+    return out
+
+
 def impl(inp):
     k = _classes()
+    if inp["kind"] == "seq":
+        return _impl_seq(inp, k)
     packs = [(int(c), int(i)) for c, i in inp.get("packs", [])]
     if inp["kind"] == "direct":
         c = object.__new__(k["coll"])
@@ -303,7 +409,13 @@ def _coq_Ns(xs):
     return "[" + ";".join(str(int(x)) for x in xs) + "]%N" if xs else "(@nil N)"
 
 
+def _step_input(inp, st):
+    return {"kind": inp["mode"], "total": st["total"], "packs": st["packs"]}
+
+
 def model_term(inp):
+    if inp["kind"] == "seq":        # the model is a function of each step's arguments only
+        return "OL [" + "; ".join(model_term(_step_input(inp, st)) for st in inp["steps"]) + "]"
     if inp["kind"] == "direct":
         return f"run_case {coq_N(inp['total'])} {_coq_packs(inp['packs'])}"
     if inp["kind"] == "raw":
@@ -363,6 +475,14 @@ def _check_plan(packs, total, res):
 def oracle(inp, obs):
     if isinstance(obs, Err) and str(obs).startswith("DRIVER:"):
         return "driver error " + str(obs)
+    if inp["kind"] == "seq":
+        if len(obs) != len(inp["steps"]):
+            return "missing observations"
+        for j, (st, o) in enumerate(zip(inp["steps"], obs)):
+            why = oracle(_step_input(inp, st), o)
+            if why:
+                return f"call {j + 1} of {len(obs)} on one collection object: {why}"
+        return None
     packs = [(int(c), int(i)) for c, i in inp.get("packs", [])]
     if inp["kind"] == "direct":
         if any(c <= 0 for c, _ in packs):
@@ -410,6 +530,8 @@ def finding_matches(fid, inp, obs, why):
 
 
 def nontrivial(inp, obs):
+    if inp["kind"] == "seq":
+        return any(nontrivial(_step_input(inp, st), None) for st in inp["steps"][:-1])
     if inp["kind"] == "repo":
         return True
     if inp["kind"] == "raw":
@@ -422,7 +544,11 @@ def distribution(inputs, observations):
     d = {"kind": {}, "total_vs_sum": {"eq": 0, "gt": 0, "lt": 0}, "outcome": {}, "npacks": {}, "with_zero_counts": 0}
     for i, o in zip(inputs, observations):
         d["kind"][i["kind"]] = d["kind"].get(i["kind"], 0) + 1
-        if i["kind"] == "repo":
+        if i["kind"] in ("repo", "seq"):
+            if i["kind"] == "seq":
+                tots = [sum(c for c, _ in st["packs"]) for st in i["steps"]]
+                key = "seq_repeats_total" if len(set(tots)) < len(tots) else "seq_distinct_totals"
+                d[key] = d.get(key, 0) + 1
             continue
         packs = i["packs"]
         if any(c == 0 for c, _ in packs):
@@ -450,6 +576,17 @@ def distribution(inputs, observations):
 
 
 def shrink(inp, fails):
+    if inp["kind"] == "seq":
+        steps = list(inp["steps"])
+        changed = True
+        while changed and len(steps) > 1:
+            changed = False
+            for j in range(len(steps)):
+                cand = dict(inp, steps=steps[:j] + steps[j + 1:])
+                if fails(cand):
+                    steps, changed = cand["steps"], True
+                    break
+        return dict(inp, steps=steps)
     if inp["kind"] == "repo":
         b = list(inp["batches"])
         while len(b) > 1 and fails(dict(inp, batches=b[:-1])):
@@ -476,6 +613,18 @@ def search(hints, rng):
         for p in _partitions(n):
             for kind in ("direct", "auto"):
                 inp = {"kind": kind, "total": n if kind == "direct" else None, "packs": [[c, i] for i, c in enumerate(p)]}
+                try:
+                    o = impl(inp)
+                except Exception as e:  # noqa
+                    o = Err("DRIVER:" + type(e).__name__)
+                why = oracle(inp, o)
+                if why:
+                    return inp, o, why
+    for n in range(2, 15):                       # the same call repeated on one object
+        for p in _partitions(n):
+            for mode in ("direct", "auto"):
+                st = {"total": n if mode == "direct" else None, "packs": [[c, i] for i, c in enumerate(p)]}
+                inp = {"kind": "seq", "mode": mode, "steps": [st, st, st]}
                 try:
                     o = impl(inp)
                 except Exception as e:  # noqa
